@@ -2197,8 +2197,17 @@ class Workflow(Trellis):
     # Glob patterns
     #
 
-    def nglob_registrations(self) -> Iterator[tuple[int, NamedGlob, Step]]:
+    def nglob_registrations(
+        self, include_detached: bool = False
+    ) -> Iterator[tuple[int, NamedGlob, Step]]:
         """Iterate over the patterns registered by all attached steps, with their context.
+
+        Parameters
+        ----------
+        include_detached
+            Also yield the patterns of detached steps.
+            A change of the match set must reach them for the same reason as in
+            `mark_consuming_steps_pending`: a detached step can be recycled with its state and hash.
 
         Yields
         ------
@@ -2210,10 +2219,9 @@ class Workflow(Trellis):
         step
             The step that registered the pattern.
         """
-        sql = (
-            "SELECT node.i, label, nglob.i, data FROM node "
-            "JOIN nglob ON node.i = nglob.node WHERE NOT node.detached"
-        )
+        sql = "SELECT node.i, label, nglob.i, data FROM node JOIN nglob ON node.i = nglob.node"
+        if not include_detached:
+            sql += " WHERE NOT node.detached"
         for node_i, label, nglob_i, data in self.db.execute(sql):
             yield (
                 nglob_i,
@@ -2477,7 +2485,7 @@ class Workflow(Trellis):
         """
         if deleted & updated:
             raise ConsistencyError("Deleted and updated paths cannot overlap.")
-        for i, ng, step in self.nglob_registrations():
+        for i, ng, step in self.nglob_registrations(include_detached=True):
             # A step becomes pending when one of its patterns loses a deleted file as a match,
             # or could gain a new match among the updated files.
             evolved = ng.will_change(deleted, updated)
